@@ -26,6 +26,9 @@ pub struct FsSpec {
     pub rep: u64,
     /// valid members verified in the same batch BEFORE the target (the target's challenges are read from its own slice)
     pub pre: Vec<PoolMember>,
+    /// additionally verify an exact copy of the target (same statement, same proof, original context) directly before it
+    #[serde(default)]
+    pub dup_pre: bool,
 }
 
 /// one perturbation: what is changed, and the index of the first challenge drawn after the datum is absorbed
@@ -225,16 +228,47 @@ pub fn oracle<E: Engine>(_ctx: &RunCtx, spec: &FsSpec, log: &mut CaseLog) -> Res
     if prover_base.len() != expected {
         return Err(format!("{} prover drew {} challenges, expected {}", INCONCLUSIVE, prover_base.len(), expected));
     }
-    let pre: Vec<Member<E>> = spec
+    let mut pre: Vec<Member<E>> = spec
         .pre
         .iter()
         .map(|pm| build_member::<E>(cfg.bits, cfg.ext, pm, cfg.bits.max(16)))
         .collect::<Result<_, _>>()?;
+    if spec.dup_pre {
+        pre.push(Member {
+            st: t.st.clone(),
+            proof: proof.clone(),
+            ctx: spec.base.ctx.clone(),
+            valid: true,
+            mask: None,
+            m: cfg.m,
+            cap: cfg.cap,
+            altered: false,
+        });
+    }
     let pre_counts: usize = pre
         .iter()
         .map(|m| 3 + Proof::parse_layout(&m.proof.to_bytes()).map(|p| p.l.len()).unwrap_or(0))
         .sum();
     let ps0 = PubStatement::<E>::of(&t);
+    // binding to the context, verdict level, at the target's batch position: the batch [valid members.., target under another
+    // context] must be refused (whatever the verifier does internally, e.g. re-using work of an identical predecessor)
+    {
+        let mut other = ps0.ctx.clone();
+        other.msgs.push((1, spec.rep.to_le_bytes()[..3].to_vec()));
+        let mut ts: Vec<_> = pre.iter().map(|m| m.ctx.transcript()).collect();
+        ts.push(other.transcript());
+        let mut sts: Vec<_> = pre.iter().map(|m| m.st.clone()).collect();
+        sts.push(t.st.clone());
+        let mut proofs: Vec<_> = pre.iter().map(|m| m.proof.clone()).collect();
+        proofs.push(proof.clone());
+        if guarded(|| E::verify(&mut ts, &sts, &proofs, VerifyAction::VerifyOnly))?.is_ok() {
+            return Err(format!(
+                "a proof verifies under a transcript context other than the one it was created in (batch position {}, preceded by an identical triple: {})",
+                pre.len(),
+                spec.dup_pre
+            ));
+        }
+    }
     let base = verifier_challenges::<E>(&pre, &t.st, &proof, &ps0.ctx, pre_counts)?;
     if base.len() != expected {
         return Err(format!("{} verifier drew {} challenges for the target, expected {}", INCONCLUSIVE, base.len(), expected));
@@ -332,6 +366,36 @@ pub fn oracle<E: Engine>(_ctx: &RunCtx, spec: &FsSpec, log: &mut CaseLog) -> Res
             }
         }
     }
+    // prover side, commitments: another blinding for commitment j (witness kept consistent) changes every challenge
+    for j in (0..cfg.m).take(4) {
+        let mut blind = t.blindings.clone();
+        blind[j][0] += curve25519_dalek::scalar::Scalar::ONE;
+        let cs: Vec<E::P> = t
+            .values
+            .iter()
+            .zip(blind.iter())
+            .map(|(v, r)| E::commit(t.params.pc_gens(), &curve25519_dalek::scalar::Scalar::from(*v), r).map_err(|e| format!("{:?}", e)))
+            .collect::<Result<_, _>>()?;
+        let st2 = RangeStatement::init(t.params.clone(), cs, t.promises.clone(), t.seed).map_err(|e| format!("{:?}", e))?;
+        let w2 = tari_bulletproofs_plus::range_witness::RangeWitness::init(
+            t.values
+                .iter()
+                .zip(blind.iter())
+                .map(|(v, r)| tari_bulletproofs_plus::commitment_opening::CommitmentOpening::new(*v, r.clone()))
+                .collect(),
+        )
+        .map_err(|e| format!("{:?}", e))?;
+        let (r2, ev2) = tapped(|| guarded(|| E::prove(&mut t.transcript(), &st2, &w2, &mut spec.base.rng.make())));
+        r2?.map_err(|e| format!("prover refused after changing commitment {}: {:?}", j, e))?;
+        let got = challenges(&ev2);
+        for i in 0..got.len().min(prover_base.len()) {
+            if got[i] == prover_base[i] {
+                return Err(format!("prover: challenge {} is UNCHANGED after changing commitment {} of {}", i, j, cfg.m));
+            }
+        }
+        done += 1;
+        log.label("perturb-prover:commitment");
+    }
     // an honest proof re-verified under a perturbed context is rejected (binding to the context it was created in)
     let mut psx = ps0.clone();
     psx.apply(&StMut::ContextExtra(vec![0]));
@@ -341,6 +405,7 @@ pub fn oracle<E: Engine>(_ctx: &RunCtx, spec: &FsSpec, log: &mut CaseLog) -> Res
     log.extra_evals += done;
     log.label(format!("engine={}", E::NAME));
     log.label(format!("fs:batch-position={}", pre.len()));
+    log.label(format!("fs:preceded-by-own-copy={}", spec.dup_pre));
     log.labels(t.classes());
     log.sample(json!({"engine": E::NAME, "cfg": cfg, "batch_position": pre.len(), "challenges": expected, "perturbations_compared": done,
         "first": perts.iter().take(4).map(|p| p.name.clone()).collect::<Vec<_>>()}));
@@ -375,7 +440,12 @@ fn fs_sub<E: Engine>(cases: (usize, usize)) -> Sub {
                 any::<u64>(),
                 prop_oneof![2 => Just(vec![]), 3 => prop::collection::vec(pool_member_valid(), 1..=2)],
             )
-                .prop_map(|(base, rep, pre)| FsSpec { base, rep, pre })
+                .prop_map(|(base, rep, pre)| FsSpec {
+                    dup_pre: rep % 4 == 0,
+                    base,
+                    rep,
+                    pre,
+                })
         },
         oracle::<E>,
     )
